@@ -16,6 +16,9 @@ ASSUMPTIONS = [
 RESERVED = set(dir(type)) | {"keys", "add", "remove"}
 
 
+NAMES = []
+
+
 def shards(tier, seed):
     n = 16
     per = 200 if tier == "quick" else 12500
@@ -27,7 +30,13 @@ def name_pool():
             # ordinary words that an implementation might also use for its own parameters or bookkeeping
             "name", "value", "code", "type", "id", "self", "args", "kwargs", "key", "opcode", "serviceaction", "items", "values", "get",
             "update", "pop", "dict", "enum", "data", "result", "bases", "attrs"]
-    return [n for n in base if n not in RESERVED and not n.startswith("__")]
+    # ... and the same words in another case: names are case-sensitive
+    base += [n.lower() for n in base if n.lower() != n] + [n.upper() for n in base if n.upper() != n and n.upper() not in base]
+    out = []
+    for n in base:
+        if n not in RESERVED and not n.startswith("__") and n not in out:
+            out.append(n)
+    return out
 
 
 def some_function():
@@ -71,6 +80,13 @@ def compare(ctx, enums, wit, step):
             ctx.fail("C18:%s" % mech, "enum %d (%s): keys %r, model %r (missing %r of kinds %r, extra %r) after %s"
                      % (idx, form, sorted(keys), sorted(model), missing, kinds, extra, step), wit)
             continue
+        # names that were never supplied, or were removed, are not there (exactly the supplied names)
+        for k in NAMES:
+            if k not in model:
+                ctx.count("absent_names_probed")
+                if hasattr(E, k):
+                    ctx.fail("C18:absent_name_answers", "enum %d (%s): name %r is not among the names %r but E.%s answers %r after %s" % (idx, form, k, sorted(model)[:6], k, getattr(E, k), step), wit)
+                    break
         for k, v in model.items():
             try:
                 got = getattr(E, k)
@@ -108,6 +124,7 @@ def run(shard, ctx):
 
     rng = ctx.rng()
     names = name_pool()
+    NAMES[:] = names
     kinds = value_pool(rng, (OpCode, Enum))
     for h in range(shard["n"]):
         allow_callables = rng.random() < 0.3
@@ -166,7 +183,13 @@ def run(shard, ctx):
                 v = rng.choice(list(model.values())) if model and rng.random() < 0.3 else rng.choice(ks)()
                 log.append(("add", idx, k, kind_name(v), k in model))
                 try:
-                    E.add(k, v)
+                    if rng.random() < 0.3:
+                        E.add(key=k, value=v)  # documented parameter names
+                        ctx.count("keyword_calls")
+                    elif rng.random() < 0.2:
+                        E.add(k, value=v)
+                    else:
+                        E.add(k, v)
                     if k in model:
                         ctx.fail("C18:add_existing_not_refused.%s" % ("callable_value" if callable(model[k]) else "plain"),
                                  "add(%r) of an existing name was accepted" % k, wit)
@@ -183,7 +206,11 @@ def run(shard, ctx):
                 k = rng.choice(list(model)) if model and rng.random() < 0.7 else rng.choice(names)
                 log.append(("remove", idx, k, k in model))
                 try:
-                    E.remove(k)
+                    if rng.random() < 0.3:
+                        E.remove(key=k)
+                        ctx.count("keyword_calls")
+                    else:
+                        E.remove(k)
                     if k not in model:
                         ctx.fail("C18:remove_missing_not_refused", "remove(%r) of a missing name was accepted" % k, wit)
                     else:
